@@ -9,6 +9,7 @@
 -/
 import ALV.Lemmas.C11Order2
 import ALV.Lemmas.C11Lev
+import ALV.Lemmas.C11Poles
 import ALV.Common.Audit
 
 set_option linter.unusedSectionVars false
@@ -198,6 +199,27 @@ def SchurCohnFull : Prop :=
   ∀ (den t : List ℝ) (g : ℝ), g ≠ 0 → stripZeros den = g :: t →
     (parcorStableSpec den = true ↔ ∀ z : ℂ, evalC den.reverse z = 0 → Complex.normSq z < 1)
 
+/-- **C11.5d** "critical and unstable filters give False", every order: a denominator built with a
+prescribed real pole or conjugate pair on or outside the unit circle gets the verdict `false`,
+whatever the other poles and the non-zero gain. -/
+theorem unstable_gives_false (g : ℝ) (hg : g ≠ 0) (reals : List ℝ) (pairs : List (ℝ × ℝ))
+    (h : polesInside reals pairs = false) : parcorStableSpec (fromPoles g reals pairs) = false :=
+  fromPoles_unstable g hg reals pairs h
+
+/-- the same for the repaired `parcor_stable` -/
+theorem unstable_gives_false_fixed (g : ℝ) (hg : g ≠ 0) (reals : List ℝ) (pairs : List (ℝ × ℝ))
+    (h : polesInside reals pairs = false) : parcorStableFixed (fromPoles g reals pairs) = false := by
+  obtain ⟨t, ht⟩ := fromPoles_head g reals pairs
+  obtain ⟨t', ht'⟩ := stripZeros_head g hg t
+  rw [← ht] at ht'
+  rw [stableFixed_eq_spec _ t' g hg ht']
+  exact fromPoles_unstable g hg reals pairs h
+
+-- PENDING (the other half for the constructed family; consequence of `SchurCohnFull`):
+def FromPolesStable : Prop :=
+  ∀ (g : ℝ) (reals : List ℝ) (pairs : List (ℝ × ℝ)), g ≠ 0 →
+    polesInside reals pairs = true → parcorStableSpec (fromPoles g reals pairs) = true
+
 /-! ### 6. `levinson_durbin` as coded: reflection coefficients and prediction error -/
 
 /-- **C11.6a** whenever `levinson_durbin(r, order)` returns (no `ParCorError`), with `ks` the
@@ -229,6 +251,8 @@ theorem parcor_levinson (r : List K) (order : Nat) (a ks : List K) (e : K)
   exact stepdown_stepup ks h1 hlast
 
 /-! ### non-vacuity -/
+example : polesInside ([1/2, -1] : List Rat) [] = false := by decide +kernel
+example : fromPoles (2 : Rat) [1/2, -1] [(3/5, 4/5)] = [2, -7/5, -1/5, 11/5, -1] := by decide +kernel
 example : levinson ([12, 6, 0, -3] : List Rat) 3 = some ([1, -5/8, 1/4, 1/8], 63/8, [-1/2, 1/3, 1/8]) := by
   decide +kernel
 example : (12 : Rat) * (([-1/2, 1/3, 1/8] : List Rat).map (fun k => 1 - k * k)).prod = 63/8 := by
